@@ -319,6 +319,18 @@ DATA_VERIFY = dict(region='data_verify', file='cmdline/check.c', scope='static i
                    epilogue='\t*failed_count_p = failed_count; *error_p = error; *countsize_p = countsize;\n\t(void)esc_buffer;')
 
 
+CHECK_LINKS = dict(region='check_links', file='cmdline/check.c', begin='/* for each link in the disk */', end='/* for each dir in the disk */', max_lines=200, expect_loops=1,
+                   proto='static void region_check_links(struct snapraid_state *state, int fix, struct snapraid_handle *handle, unsigned i, unsigned *error_p, unsigned *unrecoverable_p, unsigned *recovered_p, int *bailed)',
+                   prologue='\tstruct snapraid_disk *disk;\n\ttommy_node *node;\n\tint ret;\n\tchar esc_buffer[ESC_MAX], esc_buffer_alt[ESC_MAX];\n\tunsigned error = *error_p, unrecoverable_error = *unrecoverable_p, recovered_error = *recovered_p;\n\t(void)state;',
+                   epilogue='\tgoto out;\nbail:\n\t*bailed = 1;\nout:\n\t*error_p = error; *unrecoverable_p = unrecoverable_error; *recovered_p = recovered_error;\n\t(void)esc_buffer; (void)esc_buffer_alt;')
+
+
+def links_obs():
+    return [Ob('check.links.region', 'harness/h_links.c', 'h_check_links', inject=[CHECK_LINKS], unwind=6, small_path=True, timeout=1200, mem=8, cost=8, replay=False, kind='bounded', bound='at most 2 links on the disk',
+               functions=['state_check_process: region "for each link in the disk" .. "for each dir in the disk" (cmdline/check.c, extracted mechanically)'],
+               note='check and fix, symbolic and hard links, excluded or not, every outcome of stat / readlink / mkancestor / remove / symlink / hardlink, right or wrong target / inode')]
+
+
 def writeback_obs():
     return [Ob('check.data_verify.region', 'harness/h_writeback.c', 'h_data_verify', inject=[WRITEBACK, REPAIR_OUTCOME, DATA_VERIFY], unwind=18, small_path=True, timeout=1200, mem=8, cost=6, replay=False,
                functions=['state_check_process: region "read from the file" .. "now read and check the parity" (cmdline/check.c, extracted mechanically)'],
@@ -701,7 +713,7 @@ def openmode_obs():
 
 
 def c12(tier, seed):
-    return openmode_obs() + [o for o in main_obs() if o.name in ('main.dispatch.region', 'main.diff_branch.region')] + writeback_obs() + filepost_obs()
+    return openmode_obs() + [o for o in main_obs() if o.name in ('main.dispatch.region', 'main.diff_branch.region')] + writeback_obs() + filepost_obs() + links_obs()
 
 
 def c11(tier, seed):
@@ -730,7 +742,7 @@ def c06(tier, seed):
 
 
 def c05(tier, seed):
-    return check_obs(tier) + import_obs() + search_obs() + writeback_obs() + filepost_obs() + [o for o in openmode_obs() if o.name in ('handle.read', 'handle.write')] + scanalloc_obs()
+    return check_obs(tier) + import_obs() + search_obs() + writeback_obs() + filepost_obs() + [o for o in openmode_obs() if o.name in ('handle.read', 'handle.write')] + scanalloc_obs() + links_obs()
 
 
 def import_obs():
